@@ -97,10 +97,11 @@ type c18RefScn struct {
 	Clients     [][]c18RefOp `json:"clients"`
 	OwnerPre    int          `json:"owner_pre"`
 	OwnerCleans bool         `json:"owner_cleans"`
+	BoomClean   bool         `json:"boom_clean,omitempty"` // the clean callback panics (recovered by the caller of Clean)
 }
 
 func c18GenRef(r interface{ Intn(int) int }) c18RefScn {
-	sc := c18RefScn{CleanAtEnd: r.Intn(4) != 0, OwnerPre: c18RandDelay(r), OwnerCleans: r.Intn(5) != 0}
+	sc := c18RefScn{CleanAtEnd: r.Intn(4) != 0, OwnerPre: c18RandDelay(r), OwnerCleans: r.Intn(5) != 0, BoomClean: r.Intn(4) == 0}
 	tight := r.Intn(3) != 0
 	if r.Intn(2) == 0 {
 		sc.OwnerPre = 8 + r.Intn(4) // the owner keeps its use for a while: clients work on a live resource
@@ -127,11 +128,12 @@ func c18RunRef(m *vk.M, idx int, sc c18RefScn) bool {
 	desc := fmt.Sprintf("case=%d;ref;%s", idx, vk.JSON(sc))
 	m.Current(desc)
 	var (
-		cmu   sync.Mutex
-		cblog = &c18OpLog{}
-		wg    sync.WaitGroup
-		start = make(chan struct{})
-		gate  = c18NewGate(int32(len(sc.Clients) + 1))
+		cleanPanics int32
+		cmu         sync.Mutex
+		cblog       = &c18OpLog{}
+		wg          sync.WaitGroup
+		start       = make(chan struct{})
+		gate        = c18NewGate(int32(len(sc.Clients) + 1))
 	)
 	cbID := len(sc.Clients) + 1
 	res := NewRefResource(func() {
@@ -140,6 +142,10 @@ func c18RunRef(m *vk.M, idx int, sc c18RefScn) bool {
 		cmu.Lock()
 		cblog.add(cbID, c18RefIn(c18RCallback), s1, 0, s2)
 		cmu.Unlock()
+		if sc.BoomClean {
+			atomic.AddInt32(&cleanPanics, 1)
+			panic(c18Panic{-2})
+		}
 	})
 	type useRec struct {
 		useRet    int64 // stamp at which the successful Use returned
@@ -156,7 +162,7 @@ func c18RunRef(m *vk.M, idx int, sc c18RefScn) bool {
 			open = open[:len(open)-1]
 			call := vk.Seq()
 			uses[ci][k].cleanCall = call
-			res.Clean()
+			vk.Recover(res.Clean)
 			ret := vk.Seq()
 			lg.add(ci, c18RefIn(c18RClean), call, 0, ret)
 		}
@@ -269,6 +275,7 @@ func c18RunRef(m *vk.M, idx int, sc c18RefScn) bool {
 	m.Count("refresource_use_refused", int64(nrefused))
 	m.Count("refresource_clean", int64(nclean))
 	m.Count("refresource_clean_callbacks", int64(ncb))
+	m.Count("refresource_clean_callbacks_panicked", int64(atomic.LoadInt32(&cleanPanics)))
 	m.Case("ref"+c18OrderDigest(ops), ncb > 0)
 	if ncb > 0 && nrefused > 0 && m.WantSample() && idx%19 == 1 {
 		h := c18Render(ops, true)
@@ -296,6 +303,7 @@ type c18LockScn struct {
 	Workers int    `json:"workers"`
 	Iters   int    `json:"iters"`
 	In      int    `json:"in"`
+	Boom    int    `json:"boom,omitempty"` // barrier/guard: every Boom-th guarded function panics (recovered by its caller)
 }
 
 func c18GenLock(r interface{ Intn(int) int }) c18LockScn {
@@ -305,6 +313,9 @@ func c18GenLock(r interface{ Intn(int) int }) c18LockScn {
 		sc.Workers = 16 + r.Intn(49)
 		sc.Iters = 3 + r.Intn(6)
 	}
+	if (sc.Kind == "barrier" || sc.Kind == "guard") && r.Intn(2) == 0 {
+		sc.Boom = 2 + r.Intn(9)
+	}
 	return sc
 }
 
@@ -312,17 +323,21 @@ func c18RunLock(m *vk.M, idx int, sc c18LockScn) bool {
 	desc := fmt.Sprintf("case=%d;lock;%s", idx, vk.JSON(sc))
 	m.Current(desc)
 	var (
-		sl       SpinLock
-		bar      Barrier
-		mtx      sync.Mutex
-		inside   int32
-		overlap  int32
-		counter  int64
-		entered  int64
-		tryFails int64
-		wg       sync.WaitGroup
-		start    = make(chan struct{})
-		gate     = c18NewGate(int32(sc.Workers))
+		sl        SpinLock
+		bar       Barrier
+		mtx       sync.Mutex
+		inside    int32
+		overlap   int32
+		counter   int64
+		entered   int64
+		tryFails  int64
+		wg        sync.WaitGroup
+		start     = make(chan struct{})
+		gate      = c18NewGate(int32(sc.Workers))
+		calls     int64 // guarded functions started (decides which one panics)
+		npanic    int64
+		panicDone int64 // stamp at which a panicked Guard call was back at its caller
+		waiting   int32 // workers currently inside a Guard call
 	)
 	critical := func() {
 		if atomic.AddInt32(&inside, 1) > 1 {
@@ -335,6 +350,18 @@ func c18RunLock(m *vk.M, idx int, sc c18LockScn) bool {
 		atomic.StoreInt64(&counter, v+1)
 		atomic.AddInt64(&entered, 1)
 		atomic.AddInt32(&inside, -1)
+		if sc.Boom > 0 && atomic.AddInt64(&calls, 1)%int64(sc.Boom) == 0 {
+			panic(c18Panic{-1})
+		}
+	}
+	guarded := func(call func()) {
+		atomic.AddInt32(&waiting, 1)
+		_, p := vk.Recover(call)
+		atomic.AddInt32(&waiting, -1)
+		if p {
+			atomic.AddInt64(&npanic, 1)
+			atomic.StoreInt64(&panicDone, vk.Seq())
+		}
 	}
 	for w := 0; w < sc.Workers; w++ {
 		wg.Add(1)
@@ -357,15 +384,29 @@ func c18RunLock(m *vk.M, idx int, sc c18LockScn) bool {
 						c18Delay(1)
 					}
 				case "barrier":
-					bar.Guard(critical)
+					guarded(func() { bar.Guard(critical) })
 				default:
-					Guard(&mtx, critical)
+					guarded(func() { Guard(&mtx, critical) })
 				}
 			}
 		}()
 	}
 	close(start)
 	if !c18Join(&wg) {
+		// a Guard still parked although nobody is inside the guarded section and a panicked
+		// predecessor has demonstrably returned to its caller will never run: the panic left
+		// the lock held (same rule as C18:lockedcalls:blocked-after-panic)
+		if done := atomic.LoadInt64(&panicDone); done != 0 && atomic.LoadInt32(&inside) == 0 && atomic.LoadInt32(&waiting) > 0 {
+			if parked := vk.GoroutinesIn("syncx.Guard"); len(parked) > 0 {
+				g := parked[0]
+				if len(g) > 600 {
+					g = g[:600]
+				}
+				m.Violate("C18:barrier:blocked-after-panic", desc, "%s: %d worker(s) have been inside Guard for more than %v without entering the guarded function, nobody is inside it, and a Guard whose function panicked returned to its caller at stamp %d (%d panics recovered): the lock was not released by the panicking call (%d goroutines parked in syncx.Guard)\n%s",
+					sc.Kind, atomic.LoadInt32(&waiting), c18Watchdog, done, atomic.LoadInt64(&npanic), len(parked), g)
+				return false
+			}
+		}
 		m.Inconclusive("case %d (lock %s): workers did not finish within %v", idx, sc.Kind, c18Watchdog)
 		return false
 	}
@@ -377,6 +418,7 @@ func c18RunLock(m *vk.M, idx int, sc c18LockScn) bool {
 	}
 	m.Count(name+"_sections_entered", atomic.LoadInt64(&entered))
 	m.Count("spinlock_trylock_refused", atomic.LoadInt64(&tryFails))
+	m.Count("barrier_guarded_functions_panicked_and_recovered", atomic.LoadInt64(&npanic))
 	m.Case(fmt.Sprintf("lock%s/%d/%d/%d/%d", sc.Kind, sc.Workers, sc.Iters, sc.In, atomic.LoadInt64(&tryFails)), atomic.LoadInt64(&entered) > 1)
 	if m.WantSample() && idx%53 == 1 {
 		m.Sample(map[string]any{"kind": sc.Kind, "workers": sc.Workers, "gomaxprocs": sc.Procs, "sections_entered": atomic.LoadInt64(&entered), "trylock_refused": atomic.LoadInt64(&tryFails), "counter": atomic.LoadInt64(&counter)})
@@ -556,6 +598,7 @@ func c18RunOnce(m *vk.M, idx int, sc c18OnceScn) bool {
 type c18ImmStep struct {
 	Adv  int64 `json:"adv"` // virtual ms before the Get
 	Fail bool  `json:"fail"`
+	Boom bool  `json:"boom,omitempty"` // the fetch panics (recovered by the caller of Get)
 }
 
 type c18ImmScn struct {
@@ -583,7 +626,9 @@ func c18GenImm(r interface{ Intn(int) int }) c18ImmScn {
 		default:
 			adv = int64(r.Intn(int(2 * sc.Interval)))
 		}
-		sc.Steps = append(sc.Steps, c18ImmStep{Adv: adv, Fail: i < succeedAt})
+		st := c18ImmStep{Adv: adv, Fail: i < succeedAt}
+		st.Boom = st.Fail && r.Intn(4) == 0
+		sc.Steps = append(sc.Steps, st)
 	}
 	return sc
 }
@@ -599,6 +644,9 @@ func c18RunImm(m *vk.M, idx int, sc c18ImmScn) bool {
 	errBoom := errors.New("c18-fetch-failed")
 	ir := NewImmutableResource(func() (any, error) {
 		n := atomic.AddInt64(&fetches, 1)
+		if sc.Steps[atomic.LoadInt64(&step)].Boom {
+			panic(c18Panic{n})
+		}
 		if sc.Steps[atomic.LoadInt64(&step)].Fail {
 			return nil, errBoom
 		}
@@ -607,13 +655,17 @@ func c18RunImm(m *vk.M, idx int, sc c18ImmScn) bool {
 	now, lastFetch := int64(0), int64(-1)
 	succeeded := false
 	var got any
-	var nfetch, nsupp int
+	var nfetch, nsupp, npanic int
 	for i, st := range sc.Steps {
 		atomic.StoreInt64(&step, int64(i))
 		timex.VerifAdvance(time.Duration(st.Adv * c18Ms))
 		now += st.Adv
 		before := atomic.LoadInt64(&fetches)
-		v, err := ir.Get()
+		var v any
+		var err error
+		if _, p := vk.Recover(func() { v, err = ir.Get() }); p {
+			npanic++
+		}
 		fetched := atomic.LoadInt64(&fetches) - before
 		switch {
 		case fetched > 1:
@@ -641,6 +693,7 @@ func c18RunImm(m *vk.M, idx int, sc c18ImmScn) bool {
 	}
 	m.Count("immutableresource_gets", int64(len(sc.Steps)))
 	m.Count("immutableresource_fetches", int64(nfetch))
+	m.Count("immutableresource_fetches_panicked", int64(npanic))
 	m.Count("immutableresource_fetch_suppressed_within_interval", int64(nsupp))
 	m.Case(fmt.Sprintf("imm%s", vk.Digest(vk.JSON(sc))), nfetch > 1 || nsupp > 0)
 	return true
